@@ -205,6 +205,13 @@ pub fn explore<Sp: Spec>(spec: &Sp, lim: &Limits) -> Stats {
         links.push(nlinks);
         frontier = next;
         st.depth_completed = depth;
+        // fail fast: BFS has already produced the shortest counterexample of every signature seen;
+        // deeper levels of a broken implementation only cost time and memory (violations that are
+        // listed as known findings do not stop the search)
+        if found.keys().any(|s| crate::report::is_new_signature(s)) {
+            st.capped = Some(format!("stopped after depth {depth}: violations found (shortest counterexamples kept)"));
+            break;
+        }
         if st.states > lim.max_states {
             st.capped = Some(format!("state cap {} hit after depth {}", lim.max_states, depth));
             break;
